@@ -37,6 +37,8 @@ REGISTRY = {
     "packages": [("h_parser",)],
 }
 PROPS = "theories/Props/C06.v"
+PROPS_C = "theories/Props/C06c.v"
+THEOREMS_C = ["C06c_spec", "C06c_build_values_lookup", "C06c_get_value_at_lfind", "C06c_collect_find", "C06c_pieces_eqb_refl", "C06c_resolve_err_kinds", "C06c_final_value_err_kinds", "C06c_model_project_err", "C06c_first_error", "C06c_missing", "C06c_group", "C06c_self_cycle", "C06c_spec_reject"]
 PRE = ("From Coq Require Import List NArith ZArith.\nImport ListNotations.\n"
        "From LI Require Import Base.StrOps Parser.Parse Parser.Reduce Parser.Source Parser.Foreign Parser.ForeignCheck.\nOpen Scope N_scope.\n")
 
@@ -296,21 +298,7 @@ def run(ctx):
     from checks import isolate
     isolate.enter(ctx)
     bindir = core.cargo_build("h_parser")
-    ok, problems = core.coq_audit(ctx, PROPS, THEOREMS)
-    ci1 = ctx.coq_info
-    ok2, problems2 = core.coq_audit(ctx, PROPS_B, THEOREMS_B)      # soundness against the inlining semantics (Props/C06b.v)
-    ci2 = ctx.coq_info
-    ok, problems = ok and ok2, problems + problems2
-    if ci1.get("built") and ci2.get("built"):
-        import re as _re
-        closure = list(dict.fromkeys(ci1["closure"] + ci2["closure"]))
-        nq = sum(len(_re.findall(r"\bQed\.", core.strip_comments(open(core.COQ + "/" + f).read()))) for f in closure)
-        ctx.coq_info = {"built": True, "closure": closure, "theorems": ci1["theorems"] + ci2["theorems"], "qed_in_closure": nq,
-                        "assumptions": {**ci1["assumptions"], **ci2["assumptions"]},
-                        "sources_sha256": ci1["sources_sha256"] + "+" + ci2["sources_sha256"],
-                        "targets": ["theories/Props/C06.vo", "theories/Props/C06b.vo"]}
-    else:
-        ctx.coq_info = ci1 if not ci1.get("built") else ci2
+    ok, problems = core.coq_audit_multi(ctx, [(PROPS, THEOREMS), (PROPS_B, THEOREMS_B), (PROPS_C, THEOREMS_C)])
     exe = os.path.join(bindir, "h_parser")
     n = 150 if ctx.quick else 1500
     root = os.path.join(ctx.work, "projects")
